@@ -17,7 +17,7 @@ from ..ast.visitor import DefaultVisitor
 from ..fpc_context import FPCoreContext
 from ..interpret import Interpreter, Value, get_default_interpreter
 from ..interpret.value import to_value, unwrap_foreign
-from ..number import REAL
+from ..number import REAL, Float
 from .define_use import DefineUse, DefineUseAnalysis, Definition, DefSite
 
 
@@ -109,7 +109,24 @@ class _PartialEvalInstance(DefaultVisitor):
             return a
         if a is _TOP or b is _TOP:
             return _TOP
-        return a if a == b else _TOP
+        return a if self._same_value(a, b) else _TOP
+
+    @classmethod
+    def _same_value(cls, a, b) -> bool:
+        """Are two known values indistinguishable?  Unlike ``==``, this
+        keeps ``+0`` and ``-0`` apart (they compare equal, but the
+        program can observe the sign)."""
+        if isinstance(a, list | tuple) or isinstance(b, list | tuple):
+            return (
+                type(a) is type(b)
+                and len(a) == len(b)
+                and all(cls._same_value(x, y) for x, y in zip(a, b))
+            )
+        if a != b:
+            return False
+        a_neg = isinstance(a, Float) and a.is_zero() and a.s
+        b_neg = isinstance(b, Float) and b.is_zero() and b.s
+        return a_neg == b_neg
 
     def _merge_branch_phis(self, stmt: Stmt):
         """Merge phis after an ``if`` / ``if-else``: both branches are
@@ -379,7 +396,7 @@ class _PartialEvalInstance(DefaultVisitor):
                 rhs = self.by_def.get(self.def_use.defs[phi.rhs], _TOP)
                 new = self._meet(lhs, rhs)
                 old = self.by_def.get(phi)
-                if new != old:
+                if new is not old and (new is _TOP or old is None or old is _TOP or not self._same_value(new, old)):
                     if new is None:
                         self.by_def.pop(phi, None)
                     else:
